@@ -1,7 +1,8 @@
 (* C02 — an honest swarm always leads to a complete, identical download.
-   Liveness over the schedules of an async runtime.  What is machine-checked here are the ingredients; the fairness
-   argument that turns them into termination, and its validity for tokio's scheduler, is NOT machine-checked. *)
-From Rdest Require Import Base BCodec Consts Wire Manager MgrProofs Handler HandlerProofs Metainfo Extract ExtractProofs Tracker TrackerProofs Stats Corr.Stats StatsProofs TraceProofs PieceProofs.
+   Liveness over the schedules of an async runtime.  Machine-checked here: the ingredients, and the complete download
+   for the sequential schedule with one honest seeder (C02_seeder_download_completes).  The fairness argument that
+   extends this to several peers under every schedule, and its validity for tokio's scheduler, is NOT machine-checked. *)
+From Rdest Require Import Base BCodec Consts Wire Manager MgrProofs Handler HandlerProofs Metainfo Extract ExtractProofs Tracker TrackerProofs Stats Corr.Stats StatsProofs TraceProofs PieceProofs LiveProofs.
 Open Scope N_scope.
 
 (* variant: the number of pieces still to obtain never increases *)
@@ -44,6 +45,25 @@ Theorem C02_assigned_piece_completes : forall sha1 cf disk ovf i content,
       after_piece_finish cf (set_rx (set_ka s1 0) None) [AWrite (hash_of cf i) content; ACmd KPieceDone] reply.
 Proof. intros sha1 cf disk ovf i content Hh. exact (assigned_piece_completes sha1 cf disk ovf i content Hh). Qed.
 
+(* ONE HONEST SEEDER SUFFICES -- the sequential core of the liveness claim, machine-checked.  The manager knows one
+   peer that advertises every piece, does not choke us and answers the requests of an assignment in order with the right
+   bytes; the chooser is the code's (rarest first; C02_seeder_any_chooser: any function meeting C13's specification).
+   From the first assignment on, every iteration (answers -> verification and write -> PieceDone -> owned, broadcast,
+   next pick -> next requests) decreases the number of missing pieces by one and the loop ends with every piece
+   verified, written and owned.  For every number of pieces and every piece length. *)
+Theorem C02_seeder_download_completes : forall sha1 cf disk ovf a content n m s c,
+  still_missing m = N.of_nat n -> Cur sha1 cf a content m s c ->
+  exists m', Download sha1 cf disk ovf a content (fun m0 p0 => choose_with (rarest_list m0) p0) (m, s, c) m' /\
+             all_have (m_status m') = true.
+Proof. exact seeder_download_completes_rarest. Qed.
+Theorem C02_seeder_any_chooser : forall sha1 cf disk ovf a content choose,
+  (forall m p, pick_ok m p (choose m p) = true) ->
+  forall n m s c, still_missing m = N.of_nat n -> Cur sha1 cf a content m s c ->
+  exists m', Download sha1 cf disk ovf a content choose (m, s, c) m' /\ all_have (m_status m') = true.
+Proof. exact seeder_download_completes. Qed.
+Example C02_seeder_nonvacuous : Cur (fun x => x) lx_cf 1 lx_content lx_m lx_s 0 /\ still_missing lx_m = N.of_nat 2.
+Proof. exact live_nonvacuous. Qed.
+
 (* no waiting for an Unchoke that will not come: a peer that does not choke us, holds no assignment, and announces a
    piece we miss is asked for it in the same exchange *)
 Theorem C02_idle_announcer_asked : forall m a i pick p st m' r bc sp,
@@ -80,3 +100,5 @@ Print Assumptions C02_stats_pinned_refuted.
 Print Assumptions C02_stats_model_repaired.
 Print Assumptions C02_idle_announcer_asked.
 Print Assumptions C02_assigned_piece_completes.
+Print Assumptions C02_seeder_download_completes.
+Print Assumptions C02_seeder_any_chooser.
